@@ -19,7 +19,7 @@ GInit == Init /\ hist = <<>>
 St == [blk |-> blk', done |-> done', winner |-> winner',
        pending |-> pending',
        members |-> { [m |-> i, pc |-> pc'[i], req |-> req'[i], ref |-> ref'[i],
-                      nsub |-> nsub'[i], res |-> res'[i], subAt |-> subAt'[i]] : i \in Controlled }]
+                      nsub |-> nsub'[i], res |-> res'[i]] : i \in Controlled }]
 
 Rec(a, i, e, f) == hist' = Append(hist, [a |-> a, i |-> i, enough |-> e, f |-> f, st |-> St])
 
